@@ -450,7 +450,7 @@ def check_engine_a(prop, tier, seed):
         "exceptions_seen": tot.get("exceptions", {}),
         "rare_condition_probes": {k: v for k, v in tot.get("probes", {}).items()},
         "distinct_sites_reached": {"count": len(set().union(*[getattr(b, "sites", set()) for _, b in batches])), "measure": "distinct (operation kind, overload/element type, storage class of every operand, input validity) tuples executed at least once"},
-        "engine_counters": {k: v for k, v in tot.items() if k in ("pairs", "calls", "rejected_by_format", "per_sink", "nontrivial_runs", "events", "accesses_checked", "strategies", "sync_operations_modelled", "unsupported_primitive_runs", "libc_process_state")},
+        "engine_counters": {k: v for k, v in tot.items() if k in ("pairs", "calls", "rejected_by_format", "per_sink", "nontrivial_runs", "events", "accesses_checked", "strategies", "sync_operations_modelled", "unsupported_primitive_runs", "libc_process_state", "environment")},
         "determinism": {"indices_run_twice": det_n, "worker_counts": [4, NCPU], "mismatches": len(det_bad)},
         "components_real": ENGINE_PARTS[cfg["engine"]][0], "components_simulated": ENGINE_PARTS[cfg["engine"]][1],
         "known_findings_seen": n_known, "fixed_entries_in_known_findings_file": len(fixed),
